@@ -14,7 +14,7 @@ and marks every access that is not a plain variable as projected.
 namespace Nest
 
 instance : Inhabited AffS := ⟨⟨[], 0⟩⟩
-instance : Inhabited AccA := ⟨⟨default, false⟩⟩
+instance : Inhabited AccA := ⟨{ e := default, proj := false }⟩
 
 structure TensorAS where
   name : String
